@@ -385,6 +385,32 @@ func (e *Engine) convert(st *State, th *Thread, from, to types.Type, v Value, si
 	return nil
 }
 
+// stringCells: the bytes of a string term whose length is concrete: constants, strings converted from byte
+// slices, and concatenations of those.
+func stringCells(s *term.Term) ([]Value, bool) {
+	switch {
+	case s.IsConst():
+		out := make([]Value, len(s.S))
+		for i := 0; i < len(s.S); i++ {
+			out[i] = term.BVC(8, uint64(s.S[i]))
+		}
+		return out, true
+	case s.Op == term.OpUF && strings.HasPrefix(s.S, "str_of_bytes_"):
+		out := make([]Value, len(s.Args))
+		for i, a := range s.Args {
+			out[i] = a
+		}
+		return out, true
+	case s.Op == term.OpSConcat:
+		a, ok1 := stringCells(s.Args[0])
+		b, ok2 := stringCells(s.Args[1])
+		if ok1 && ok2 {
+			return append(append([]Value{}, a...), b...), true
+		}
+	}
+	return nil, false
+}
+
 // strBytes is the table of uninterpreted "string built from these bytes" terms.
 func (e *Engine) bytesOfString(st *State, th *Thread, s *term.Term, et types.Type, site string) Value {
 	if !s.IsConst() {
@@ -394,11 +420,7 @@ func (e *Engine) bytesOfString(st *State, th *Thread, s *term.Term, et types.Typ
 			}
 			return e.bytesOfString(st, th, s.Args[2], et, site)
 		}
-		if s.Op == term.OpUF && strings.HasPrefix(s.S, "str_of_bytes_") {
-			cells := make([]Value, len(s.Args))
-			for i, a := range s.Args {
-				cells[i] = a
-			}
+		if cells, ok := stringCells(s); ok {
 			id := e.newObjID(st, th, site)
 			st.setObj(id, &Object{Kind: OMem, Cells: cells, T: et, ep: st.ep})
 			return Slice{Obj: id, Len: len(cells), Cap: len(cells)}
